@@ -7,6 +7,12 @@ CHECKS = {
  "C03": ("model_checking", "E1", "explicit-state search (stateright BFS) over construction-kit segment sequences per grammar; real parser executed in every state against blocks known by construction",
          "for each of the 23 grammars (all 39 registered suffixes): every sequence of ≤3 (thorough ≤4) segments — code, string/markup decoys holding tag text, plain comments, start/end tags at every offset of 1- and 3-line comments of every comment form (line, block, doc, decorated, Markdown link-reference with all three title delimiters, HTML/XML), two tags per comment — closed into a balanced file, rendered LF and CRLF, with ASCII and multi-byte text around tags; attributes, line/byte column of `<`, exact content, pairing and source order compared with the construction",
          "tree-sitter grammars trusted on the kits' well-formed scaffolds (kit self-test); one leading line terminator of a content is don't-care; bounded scope", "§2 C03"),
+ "C04": ("model_checking", "E1", "explicit-state search (stateright) over token soups per grammar + exhaustive one-mutation neighbourhoods of seed files + real git diffs of hostile files; supervised child process attributes aborts/hangs",
+         "per grammar every sequence of ≤3 (thorough ≤4) tokens over comment delimiters, tag fragments, a rule-laden start tag, quotes, newline, NBSP, combining mark, emoji, and ≤4 (≤5) over the core tokens; every single-token insertion/replacement/deletion at every token boundary of a seed file for all 39 suffixes (thorough: pairs of insertions); every real `git diff` between files of ≤2 (≤3) diff-look-alike lines; each run in scan and diff mode must end in a report or an error, never a panic, abort or hang (10 s watchdog)",
+         "\"any UTF-8 string\" is covered only through the token alphabets; tree-sitter internals are exercised, not modelled", "§2 C04"),
+ "C05": ("model_checking", "E1", "explicit-state search (stateright) over attribute lists printed into three host comment forms; print/parse round trip against the printed AST",
+         "every attribute list of 0..2 (thorough 0..3) attributes over (5 names incl. non-ASCII and duplicate) × (14 value forms: bare, unquoted ASCII / non-ASCII / with - and _, empty, with space, `>`, other quote, `=<`, `</block>`, non-ASCII, a whole start tag) × 3 separators × 3 `=` layouts, 3 closing spellings, 8 surrounding noises, in `#`, `/* */` and `<!-- -->` hosts; attributes (last duplicate wins) and position of `<` compared; 17 look-alikes × noises × hosts alone and beside real blocks; 6 end-tag spellings",
+         "4–6 attributes not enumerated; host comments delivered by tree-sitter (C03)", "§2 C05"),
  "C06": ("model_checking", "E1", "explicit-state search (stateright BFS) over content-line sequences, real validator executed in every state against a reference sorter",
          "every sequence of ≤4 (thorough ≤5) content lines over a 16-line alphabet (ordered, equal, prefix-related, indented, trailing blank, blank, numeric-looking, pattern lines, case) plus an extended unicode/number alphabet, under every direction spelling × pattern × format; the real parse+validate pipeline runs in every state and must agree with the reference on presence, uniqueness and location of the diagnostic",
          "regex crate trusted for which substring matches; tree-sitter trusted to deliver one-line # comments; bounded scope (longer blocks and other alphabets are not covered)", "§2 C06–C09"),
@@ -16,6 +22,12 @@ CHECKS = {
  "C08": ("model_checking", "E1", "explicit-state search (stateright BFS) over content-line sequences against a reference matcher",
          "every sequence of ≤4 (thorough ≤5) lines over a 12-line alphabet of matching, non-matching, indented, blank, whitespace-only, partially matching and multi-byte lines × 5 anchored/unanchored patterns",
          "regex crate trusted; bounded scope", "§2 C06–C09"),
+ "C12": ("model_checking", "E1", "explicit-state search (stateright) over well-nested kit files; in every state every single-tag damage is applied and the real code must fail naming the file",
+         "for each grammar (all 39 suffixes) every well-nested file of ≤2 (thorough ≤3) kit segments × every tag × {deleted, duplicated, lost with its comment} × {alone, first, last, between healthy files} × {scan, list, diff, diff+glob}: the run must fail at parsing with an error naming the damaged file",
+         "the all-lines-added diff emitter is validated against real git before the search; bounded scope", "§2 C12"),
+ "C16": ("model_checking", "E1", "exhaustive enumeration (stateright grid) of suffix × name shape × -E mapping × content × mode against a reference suffix lookup and the kit's constructed blocks",
+         "39 registered suffixes × 11 file-name shapes (x.S, x.y.S, hidden via diff, dotted directories, names with spaces, upper-cased, .bak, no dot, ~, doubled suffix, suffix as directory) × 4 `-E` mappings × {native probe, unbalanced probe, garbage} × {scan, diff, diff+glob}; mapped names must yield exactly the constructed blocks, unmapped names nothing and no error; CLI slice for -E parsing/validation (rejected before any file is read)",
+         "reference lookup written from the property text; the registered-suffix table is cross-checked with the implementation's", "§2 C16"),
  "C09": ("model_checking", "E1", "explicit-state search (stateright) over content-line sequences × layouts, each state carrying the full (operator, spacing, N) grid",
          "every sequence of ≤5 (thorough ≤7) content lines over {statement, blank, whitespace-only, indented, comment, nested start/end tag} in every layout (tag on own line, content on the tag's line, both tags in one comment, adjacent comments) × 5 operators × 3 spacings × N 0..7; presence and data.actual/op/expected of the diagnostic compared with the reference count",
          "bounded scope; large N and large blocks only through the grid", "§2 C06–C09"),
